@@ -161,10 +161,12 @@ def gen_shape_case(idx, row):
     out.append('      let hr: &%s = unsafe { &*(&*h as *const %s) }; let _ = hr;' % (H, H))
     out.append('      { %scollect_cycles(); }' % borrows)
     out.append('      rep.check(drops() == 0, || format!("{}: value reclaimed while still held (cycle through leaf {})", name, k));')
+    out.append('      rep.check(drops() == 0, || format!("[C01] {}: a value held by the program was reclaimed (cycle through leaf {})", name, k));')
     out.append('      drop(h);')
     out.append('      { %scollect_cycles(); collect_cycles(); }' % borrows)
     out.append('      let exp = if traced[k] { 1 } else { 0 };')
     out.append('      rep.check(drops() == exp, || format!("{}: cycle through leaf {} reclaimed {} times, expected {}", name, k, drops(), exp));')
+    out.append('      if traced[k] { rep.check(drops() >= 1, || format!("[C02] {}: the unreachable cycle through leaf {} (a traced position) was not reclaimed", name, k)); }')
     out.append('      if traced[k] { let now = rust_cc::state::allocated_bytes().unwrap(); rep.check(now == base_bytes, || format!("[C03] {}: the value reclaimed through leaf {} was dropped but its allocation was not released ({} bytes still allocated)", name, k, now - base_bytes)); }')
     out.append('    }')
     out.append('}')
